@@ -42,7 +42,7 @@ func (e *engine) Info() core.Info {
 			"networks as the property states: no self-loops, no parallel links, positive finite speeds; coordinates in [1,9] so that the relative merge tolerance is unambiguous",
 			"the Dijkstra model and polyline-length computation of the oracle are correct; costs compared with 1e-9 relative tolerance; any minimum-cost chain is accepted",
 		},
-		QuickRuns: 150000, ThoroughRuns: 6000000, QuickWallS: 75, ThoroughWallS: 1200,
+		QuickRuns: 110000, ThoroughRuns: 6000000, QuickWallS: 80, ThoroughWallS: 1200,
 	}
 }
 
@@ -162,6 +162,15 @@ func (r *run) exec() {
 			r.gy = 30 + t.Choose(60, "cfg-corridor-len")
 		}
 	}
+	huge := t.OneIn(4000, "cfg-huge")
+	if huge {
+		// a network of ~2000 nodes: the node index (fan-out 25..50) gets three
+		// levels, which a few hundred links never reach
+		big = true
+		r.g = 40 + t.Choose(10, "cfg-huge-g")
+		r.gy = r.g
+		r.res.Probe("huge-network(~2000 nodes)")
+	}
 	// coordinate scales, possibly very different per axis (x in millimetres of
 	// a degree, y in metres …); coordinates never are 0
 	scales := []float64{1, 1, 1, 1e-3, 1e3, 1e6, 0.1}
@@ -177,6 +186,20 @@ func (r *run) exec() {
 	maxLinks, maxOps := 40, 90
 	if big {
 		maxLinks, maxOps = 260, 400
+	}
+	if huge {
+		maxLinks, maxOps = 6000, 6000
+		// build first (queries cost O(nodes^2) in the model's Dijkstra), then a
+		// handful of queries
+		// (bounded: a minimised tape may make every attempt pick an existing pair)
+		for tries := 0; len(r.links) < 4500 && r.res.Viol == nil && tries < 9000; tries++ {
+			r.addLink(speedMode)
+		}
+		for i := 0; i < 30 && r.res.Viol == nil && len(r.links) > 0; i++ {
+			r.query()
+		}
+		r.res.Steps = int64(len(r.links))
+		return
 	}
 	for r.res.Viol == nil && ops < maxOps {
 		ops++
@@ -393,8 +416,38 @@ func (r *run) query() {
 		}
 		return id, q
 	}
+	// free query points: anywhere in (and around) the network's extent, far
+	// from any node; the expected node is the brute-force nearest one, and the
+	// point is only used when that is unambiguous (clear margin to the second
+	// nearest)
+	free := func(label string) (int, geom.Point, bool) {
+		q := geom.Point{X: r.sx * (t.Unit(label+"-fx")*1.6 - 0.3) * float64(r.g+1), Y: r.sy * (t.Unit(label+"-fy")*1.6 - 0.3) * float64(r.gy+1)}
+		best, second, bi := math.Inf(1), math.Inf(1), -1
+		for _, id := range ids {
+			p := r.nodes[id]
+			d := math.Hypot(p.X-q.X, p.Y-q.Y)
+			if d < best {
+				best, second, bi = d, best, id
+			} else if d < second {
+				second = d
+			}
+		}
+		if bi < 0 || !(second-best > 1e-6*second) {
+			return 0, q, false
+		}
+		return bi, q, true
+	}
 	s, from := pick("q-from")
 	e, to := pick("q-to")
+	if t.OneIn(4, "q-free") {
+		if fs, fp, ok := free("q-from"); ok {
+			s, from = fs, fp
+		}
+		if fe, fp, ok := free("q-to"); ok {
+			e, to = fe, fp
+		}
+		r.res.Probe("free-query-points")
+	}
 	r.states[r.topoHash()] = struct{}{}
 	if len(r.links) >= 3 && t.OneIn(5, "interleaved-pair") {
 		// two queries on the same network, interleaved at every neighbour-list
@@ -542,7 +595,8 @@ func (r *run) checkRoute(s, e int, rt geom.MultiLineString, dist, tm float64, mo
 	if got < best && !relEq(got, best) {
 		panic(fmt.Sprintf("routeh oracle inconsistent: valid chain of cost %g below Dijkstra optimum %g", got, best))
 	}
-	if s != e {
+	if s != e && len(r.links) <= 400 {
+		// (evidence only, skipped on huge networks where it would dominate the cost)
 		// non-trivial iff the fewest-links route is not a minimum-cost route:
 		// lexicographic (hops, cost) shortest vs optimum
 		hops := r.dijkstra(s, func(link) float64 { return 1 })
